@@ -281,16 +281,23 @@ def case_read_sync(ctx, xa):
             e = out[s, b]
             v = e.to_int() if isinstance(e, SBV) else e
             ctx.oblige("digital_line_k_is_bit_k", core.eq(v, core.SInt(z3.BV2Int(z3.Extract(b, b, words[s][xa].t), is_signed=False))), detail={"s": s, "k": b})
-    for j in range(xa):
-        col = [core._as_real(words[s][j]) * k for s in range(ns)]
-        srt = arrays._cswap_sorted(col)
-        # 10th percentile, linear interpolation: position 0.1*(ns-1)
-        pos = Fraction(1, 10) * (ns - 1)
-        lo = int(pos)
-        p10 = srt[lo] + (srt[min(lo + 1, ns - 1)] - srt[lo]) * (pos - lo)
-        for s in range(ns):
-            hi = (col[s] - p10) >= core._as_real(Fraction(float(thr)))
-            ctx.oblige("analog_line_thresholded_after_floor_removal", core.eq(out[s, 16 + j], core.ite(hi, 1, 0)), detail={"s": s, "j": j, "got": out[s, 16 + j]})
+    def analog_oracle(res, first, last, name):
+        m_ = last - first
+        for j in range(xa):
+            col = [core._as_real(words[s][j]) * k for s in range(first, last)]
+            srt = arrays._cswap_sorted(col)
+            # 10th percentile, linear interpolation: position 0.1*(m-1)
+            pos = Fraction(1, 10) * (m_ - 1)
+            lo = int(pos)
+            p10 = srt[lo] + (srt[min(lo + 1, m_ - 1)] - srt[lo]) * (pos - lo)
+            for s in range(m_):
+                hi = (col[s] - p10) >= core._as_real(Fraction(float(thr)))
+                ctx.oblige(name, core.eq(res[s, 16 + j], core.ite(hi, 1, 0)), detail={"s": first + s, "j": j, "got": res[s, 16 + j], "slice": [first, last]})
+    analog_oracle(out, 0, ns, "analog_line_thresholded_after_floor_removal")
+    # a later call on another stretch of the same reader: its floor is that stretch's own (nothing carried over from earlier calls)
+    out2 = ctx.call("read_sync_again", lambda: sr.read_sync(slice(1, ns), threshold=float(thr)))
+    if ctx.oblige("second_call_shape", tuple(out2.shape) == (ns - 1, 16 + xa), detail={"shape": str(out2.shape)}):
+        analog_oracle(out2, 1, ns, "later_call_uses_the_floor_of_its_own_stretch")
 
 
 def cases(tier):
@@ -426,12 +433,13 @@ raw = np.c_[an, dg].astype(np.int16)
 d = pathlib.Path(tempfile.mkdtemp())
 (d / 'x.nidq.meta').write_text(sglx.nidq_meta_text(0, 0, xa, 1, ns=format(ns / 30003.0003, '.20f'))); raw.tofile(d / 'x.nidq.bin')
 sr = spikeglx.Reader(d / 'x.nidq.bin')
-out = sr.read_sync(slice(0, ns), threshold=1.2)
-v = an.astype(np.float32) * np.float32(5.0 / 32768)
-v = v - np.percentile(v, 10, axis=0)
-exp = np.c_[np.array([[(int(x) & 0xffff) >> k & 1 for k in range(16)] for x in dg]), (v >= 1.2).astype(int)]
-print(out, exp, sep='\\n')
-if out.shape != exp.shape or not np.array_equal(out, exp): reproduced('read_sync differs from bits + thresholded analog')
+for first in (0, 1):
+    out = sr.read_sync(slice(first, ns), threshold=1.2)
+    v = an[first:].astype(np.float32) * np.float32(5.0 / 32768)
+    v = v - np.percentile(v, 10, axis=0)
+    exp = np.c_[np.array([[(int(x) & 0xffff) >> k & 1 for k in range(16)] for x in dg[first:]]), (v >= 1.2).astype(int)]
+    print(out, exp, sep='\\n')
+    if out.shape != exp.shape or not np.array_equal(out, exp): reproduced(f'read_sync(slice({{first}}, {{ns}})) differs from bits + thresholded analog (floor of that stretch)')
 not_reproduced()
 """
     return None
